@@ -69,14 +69,14 @@ var specs = map[string]*PropSpec{
 		Assumptions: []string{"rule enforcement stays enabled (Marshal.EnforceRules=true): with rule checks disabled by the caller nothing is meant to notice a structurally incomplete document", "the zero value of a template type counts as 'nothing decoded'; typed arrays may be element-wise prefixes; strings and other leaves are atomic"},
 	},
 	"C11": {
-		Level: "exploration", QuickRuns: 12000, ThorRuns: 600000, QuickCap: 150 * time.Second, ThorCap: 25 * time.Minute, QuickWD: 10000, ThorWD: 30000,
+		Level: "exploration", QuickRuns: 40000, ThorRuns: 1500000, QuickCap: 150 * time.Second, ThorCap: 25 * time.Minute, QuickWD: 10000, ThorWD: 30000,
 		Rule: "one run = one array (every array type, string-like kinds with 1-4 byte characters, media, custom text/binary) placed at top level / in a list / as map value / as map key, delivered to a fresh validator under many flush schedules: one chunk whole; every single split point (payload <= 64 bytes); every two-point split (<= 24 bytes); drawn multi-chunk schedules with splits inside elements and characters; a zero-length chunk in every position; then drawn fault schedules (under/over delivery, missing final chunk, chunk ending inside a character, invalid UTF-8 byte, data after the final chunk, wrong chunk header, invalid media type) and the whole-array event forms. Oracle: verdict equals the reference acceptor written from the property statement (per chunk: received bytes == declared bytes; last chunk final; string-like chunk bytes valid UTF-8); on accept the forwarded bytes equal the delivered bytes. Non-trivial = a fault was injected or the data was split over more than one data event; distinct = hash of (array, position, schedule, fault)",
 		Stubs: []string{"Fragmenter (producer-side flush schedule)", "recording next receiver"}, Real: []string{"rules.RulesEventReceiver and rules.Context (array/chunk/UTF-8 rules)", "internal/chars"},
 		StepKeys:   []string{"data_events"},
 		Exhaustive: "single split points (payload <= 64 bytes) and two-point splits (<= 24 bytes) of the one-chunk form; zero-length chunk positions of a drawn chunking",
 	},
 	"C23": {
-		Level: "exploration", QuickRuns: 8000, ThorRuns: 300000, QuickCap: 150 * time.Second, ThorCap: 25 * time.Minute, QuickWD: 10000, ThorWD: 30000,
+		Level: "exploration", QuickRuns: 60000, ThorRuns: 1500000, QuickCap: 150 * time.Second, ThorCap: 25 * time.Minute, QuickWD: 10000, ThorWD: 30000,
 		Rule: "one run = one generated rules-valid event stream (array-heavy) reduced to chunking-independent items; reference = every array delivered as one whole-array event to a fresh CTE encoder (optionally behind the real validator). Variants of the same data: one chunk + one data event; drawn re-chunkings at legal chunk boundaries with each chunk's bytes split at drawn positions (element-aligned in half of the variants, arbitrary - inside elements and multi-byte characters - in the other half), zero-length chunks; one byte per data event. Oracle: output text byte-identical to the reference. By-product for the second sentence: the reference text decodes and the decoded events encode to the same text. Non-trivial = the variant differs from the one-chunk/one-event delivery; distinct = hash of (stream, variant events)",
 		Stubs: []string{"Fragmenter (producer-side flush schedule)", "SimWriter"}, Real: []string{"cte encoder (encoder_array, encoder_context, decorators, writer)", "rules validator (when in front)", "cte decoder/parser (by-product)"},
 		StepKeys: []string{"data_events"},
